@@ -446,7 +446,7 @@ def install(ctx, lentil):
 
 def workload(ctx, lentil):
     rng = ctx.rng
-    rounds = 6 if ctx.tier == 'quick' else 40
+    rounds = ctx.count(6, 40)
     history = []           # (name, args (pristine copy), call, digest)
     dftkeys = set()
     for rd in range(rounds):
@@ -495,7 +495,7 @@ def workload(ctx, lentil):
         ctx.bucket('dft-keys>32')
 
     # ---- path independence: random programs over one plane ---------------------------------------------------
-    nprog = 14 if ctx.tier == 'quick' else 120
+    nprog = ctx.count(14, 120)
     for i in range(nprog):
         wl, z, dx, du, os_ = gen.optics(rng, aniso_p=0.4)
         dxs = np.broadcast_to(np.asarray(dx, float), (2,))
